@@ -1150,6 +1150,15 @@ fn part_b_large(ctx: &Ctx) -> (Acc, Value) {
                 items.push((pad, enc));
             }
         }
+        // the 64 KiB marks (chunk refill size, a natural block size for a converter), four charsets
+        if [encoding_rs::UTF_8, encoding_rs::SHIFT_JIS, encoding_rs::UTF_16LE, encoding_rs::GB18030].contains(&enc) {
+            for boundary in [65536usize, 131072] {
+                let lo = boundary - (tail.len() + 2);
+                for pad in lo..=boundary + 2 {
+                    items.push((pad, enc));
+                }
+            }
+        }
     }
     let acc = items
         .par_iter()
@@ -1160,6 +1169,20 @@ fn part_b_large(ctx: &Ctx) -> (Acc, Value) {
             let ct = ct_for(enc, true);
             let (wire, body_start) = build_wire(&ct, &body);
             let reference = ref_decode(enc, &body);
+            // text_utf8 ignores the header: lossy UTF-8 of the whole body, wherever a character falls
+            {
+                let a = String::from_utf8_lossy(&body).into_owned().into_bytes();
+                let b = encoding_rs::UTF_8.decode_without_bom_handling(&body).0.into_owned().into_bytes();
+                let got = exec(&wire, body_start, None, None, Entry::TextUtf8, &[], None, false);
+                acc.evals += 1;
+                acc.nontrivial += 1;
+                if !matches!(&got, Got::Ok(o) if *o == a || *o == b) {
+                    let c = Case { ct: ct.clone(), session_default: None, request_default: None, entry: Entry::TextUtf8, body: body.clone(), cuts: vec![], uniform: None };
+                    if let Some(v) = judge(&c, &got, None, &[a, b]) {
+                        report(ctx, &mut acc, &c, v, 900_000_000_000_000 + (i * 8 + 7) as u64);
+                    }
+                }
+            }
             for (mi, &entry) in B_ENTRIES.iter().enumerate() {
                 let got = exec(&wire, body_start, None, None, entry, &[], None, false);
                 acc.evals += 1;
@@ -1185,7 +1208,7 @@ fn part_b_large(ctx: &Ctx) -> (Acc, Value) {
         .reduce(Acc::default, Acc::add);
     let info = json!({
         "bodies": items.len(),
-        "shape": format!("'A' x pad + \"{}\", pad over every value that puts a byte of the tail on the 8192nd / 16384th byte of the stream", esc(tail)),
+        "shape": format!("'A' x pad + \"{}\", pad over every value that puts a byte of the tail on the 8192nd / 16384th (all 12 charsets) or 65536th / 131072nd (4 charsets) byte of the body; read with 5 reader modes and text_utf8", esc(tail)),
     });
     (acc, info)
 }
